@@ -6,7 +6,8 @@ from props import sqio_common as S
 hx = S.hx
 
 # theorems added in round 6 (kept here: sqio_common.py is shared with C02 / C07)
-R6_THEOREMS = ["tracker_iff", "tracker_sound", "tracker_rejects_former_exceptions", "position_then_read_eq_record", "rewind_then_read_all_eq_parseFasta"]
+R6_THEOREMS = ["tracker_iff", "tracker_sound", "tracker_rejects_former_exceptions", "position_then_read_eq_record", "rewind_then_read_all_eq_parseFasta",
+               "tracker_ignores_where_seebuf_stops", "position_yields_ready_handle", "position_then_read_all_eq_spec"]
 
 
 def tracker_predicate(data):
@@ -102,7 +103,7 @@ class C04(Prop):
                   "Read, ReadInfo and ReadSequence agree field by field from every ready handle (read_readInfo_readSequence_agree, with the closed forms readInfo_closed_form / readSequence_closed_form); "
                   "the forward ReadWindow series of a record, for every request stream (C_k >= 0, W_k >= 1), is exactly the declarative window series specWindows of the residues Read returns - context = min(C, previous window) preceding residues, min(W, left) new ones, 1-based contiguous coordinates, residues R[start..end] - then eslEOD with L = |R|, same name/acc/desc/roff/hoff/doff, cursor where Read leaves it (windows_eq_read; windows_concat_eq_read: the new parts concatenate to Read's residues; windows_coords; file_windows_eq_specFasta: the loop over a whole file, from open on, returns the specWindows of specFasta's records), on top of the closed form of read_nres for every B (read_nres_closed_form); "
                   "whole-sequence ReadBlock fills its slots with the next records of the same parser (readBlock_short_eq_read); reverse-strand windows: the schedule tiles 1..L downwards (rev_windows_tile) and, when the handle holds no line geometry (brute-force addressing), every reverse window IS esl_sq_ReverseComplement of the residues start..end of the scanned record (rev_first_window_eq_revcomp_slice, rev_next_window_eq_revcomp_slice), and likewise under line / residue addressing when the data really has the geometry bpl/rpl promise (rev_window_eq_revcomp_slice_line / _residue), on top of read_nres with nskip > 0 in closed form; "
-                  "the line-geometry tracker (seebuf_linegeometry, repaired by 283ccd7): after a scan of whole records bpl and rpl are both positive IF AND ONLY IF some line is followed by another line of its record, every such line has exactly bpl bytes and rpl residues, and every line at all (last, only, unterminated) has at most rpl residues and at most bpl-rpl-1 ignored bytes (tracker_iff; tracker_sound is the direction the reverse-window / FetchSubseq theorems need); "
+                  "the line-geometry tracker (seebuf_linegeometry, repaired by 283ccd7): after a scan of whole records bpl and rpl are both positive IF AND ONLY IF some line is followed by another line of its record, every such line has exactly bpl bytes and rpl residues, and every line at all (last, only, unterminated) has at most rpl residues and at most bpl-rpl-1 ignored bytes (tracker_iff; tracker_sound is the direction the reverse-window / FetchSubseq theorems need), and the tracker state does not depend on where seebuf stops inside a line - any pieces of a line = the line in one piece, so the iff holds for every block size and window width (tracker_ignores_where_seebuf_stops); esl_sqfile_Position: for EVERY offset inside the file and every block size the handle after Position is a ready handle on the bytes from that offset, so every ready-handle theorem (Read closed form, Read/ReadInfo/ReadSequence agreement, window series, whole-sequence ReadBlock) holds after it (position_yields_ready_handle); Position then the read loop = the declarative parser specAll on the rest of the file with offsets counted from the start of the file (position_then_read_all_eq_spec; rewind_then_read_all_eq_parseFasta for offset 0); Position at a scanned record's roff then Read = that record (position_then_read_eq_record); "
                   "write + re-read (text and digital mode): specFasta applied to what esl_sqascii_WriteFasta writes for any list of writable records returns exactly these records (write_read_roundtrip, write_read_roundtrip_digital); line-based formats (EMBL/UniProt/GenBank/DDBJ): loadbuf in line mode delivers the next line of the FILE for every B (loadbuf_line_closed_form), header_embl / header_genbank and the WHOLE of sqascii_Read return the same status and the same ESL_SQ (every field) for any two block sizes, from open on through every record of the file, likewise ReadInfo, ReadSequence, forward ReadWindow and whole-sequence ReadBlock (read_all_linebased_block_size_independent, read_linebased_block_size_independent, readInfo_readSequence_linebased_block_size_independent, readWindow_readBlock_linebased_block_size_independent; by simulation). "
                   "Tie: the executable line-by-line model of the ascii reader (FASTA, EMBL/UniProt, GenBank/DDBJ, daemon, hmmpgmd, autodetection; block size B a parameter) is compared exactly with the ASan/UBSan build over Read / ReadInfo / ReadSequence / windows on both strands / ReadBlock (short and long-target) / FASTA round trip x text and digital mode x B swept over 1..4097 (fixed list, uniform, and the sizes that put a block boundary inside/at the end of the header line, at every '>', between CR and LF, at the end of the file), "
                   "and agreement monitors (records equal across read paths, block sizes and modes; offsets are the true byte positions, also on CRLF files; windows reassemble the sequence; reverse strand = reverse complement; write+re-read reproduces the records) give the concrete failing input.")
@@ -122,6 +123,7 @@ class C04(Prop):
                     "Lean compiler/runtime for the executable driver; gcc; ASan/UBSan"]
     rule = ("cases = generated FASTA files (0..6 records quick / 0..40 thorough, constant or ragged widths, blanks, CRLF, with/without final newline) "
             "read by Read / ReadInfo / ReadSequence / forward+reverse windows (C,W) / round trip, in text and digital mode, B in {1,2,3,7,64,4096}; "
+            "+ boundary shapes (LF/CRLF mixed per line, unterminated last record, B = k*B+-1 against record byte sizes, windows C,W in {0,1,L-1,L,L+1} and W*k = L, Position at every record offset in shuffled order), tracker scans (trackscan), pipe sources (gzip -dc, stdin re-opened, stdin as a real pipe); "
             "non-trivial = a session that returned at least one record; distinct by output trace")
 
     def generated(self, ctx):
